@@ -192,8 +192,12 @@ class GW(StoreW):
         elif x < 0.6:
             others = [o for o in wks if o is not wk]
             if others: uk = r.choice(others).ref; d = "blob:wrongkey"
-        elif x < 0.85: t, d = self.defect_template(t)
-        elif x < 0.92: m2 = dict(m); m2["p"] = "0102"; m = m2; d = "badmech"
+        elif x < 0.78: t, d = self.defect_template(t)
+        elif x < 0.92:
+            # a failure that is only detected AFTER the object was created: the blob decrypts fine but is not a PKCS#8 private key
+            t = [e for e in t if e[0] not in (K.CKA_CLASS, K.CKA_KEY_TYPE, K.CKA_ENCRYPT, K.CKA_VERIFY, K.CKA_WRAP, K.CKA_DERIVE)] + [A_ulong(K.CKA_CLASS, K.CKO_PRIVATE_KEY), A_ulong(K.CKA_KEY_TYPE, r.choice([K.CKK_RSA, K.CKK_EC]))]
+            d = "late:not_pkcs8"
+        elif x < 0.96: m2 = dict(m); m2["p"] = "0102"; m = m2; d = "badmech"
         self.info[ref] = {"kind": self.info[k.ref]["kind"], "secret": {}}
         return {"f": "C_UnwrapKey", "s": s.ref, "mech": m, "ukey": uk, "in": src, "tmpl": t, "out": ref, "defect": d}
 
@@ -216,7 +220,13 @@ class GW(StoreW):
             if kind == "aes": m = mechs.kdsd(K.CKM_AES_ECB_ENCRYPT_DATA, objs.rnd(r, r.choice([0, 5, 17])))
             elif kind == "generic": m = mechs.simple(K.CKM_CONCATENATE_BASE_AND_DATA, b"")
             else: m = mechs.ecdh1(objs.rnd(r, r.choice([3, 65])))
-        elif x < 0.75: t = [e for e in t if e[0] != K.CKA_KEY_TYPE] + [A_ulong(K.CKA_KEY_TYPE, K.CKK_AES), A_ulong(K.CKA_VALUE_LEN, 4096)]; d = "toolong"
+        elif x < 0.72: t = [e for e in t if e[0] != K.CKA_KEY_TYPE] + [A_ulong(K.CKA_KEY_TYPE, K.CKK_AES), A_ulong(K.CKA_VALUE_LEN, 4096)]; d = "toolong"
+        elif x < 0.9:
+            # a failure that is only detected AFTER the object was created: the derived secret is shorter than the requested CKA_VALUE_LEN
+            if kind == "aes": m = mechs.kdsd(K.CKM_AES_ECB_ENCRYPT_DATA, objs.rnd(r, 16)); want = 32
+            elif kind == "generic": m = mechs.kdsd(K.CKM_CONCATENATE_BASE_AND_DATA, objs.rnd(r, 8)); want = 200
+            else: want = 200
+            t = [e for e in t if e[0] != K.CKA_VALUE_LEN] + [A_ulong(K.CKA_VALUE_LEN, want)]; d = "late:short_secret"
         self.info[ref] = {"kind": "generic", "secret": {}}
         return {"f": "C_DeriveKey", "s": s.ref, "mech": m, "base": b.ref, "tmpl": t, "out": ref, "defect": d}
 
@@ -255,10 +265,7 @@ def gen(seed, tier, index):
             g.ops[0][idx]["checked"] = True; g.ops[0][idx]["defect"] = "fault"
             # drop the pin read that follows (the post snapshot reads everything anyway)
             g.ops[0][idx + 1:] = [op for op in g.ops[0][idx + 1:] if not op.get("pin")]
-            k = (index // 3 + i * 7)
-            fs = FS_KINDS[k % len(FS_KINDS)] if r.random() < 0.7 else r.choice(["write", "open", "ftruncate", "remove", "lock"])
-            nth = (k // len(FS_KINDS)) % 12 if r.random() < 0.7 else r.choice([0, 0, 1, 2])
-            g.faults.append({"tid": 0, "op": idx, "fs": fs, "nth": nth, "err": r.choice(FS_ERR[fs]), "partial": r.choice([0, 0, 9])})
+            g.extra.setdefault("fault_candidates", []).append(idx)     # position inside the call's I/O sequence: chosen by prepare() after a counting pass
         else:
             op = getattr(g, "c_" + which)(0, 1)
             if op is None: continue
@@ -269,6 +276,10 @@ def gen(seed, tier, index):
     g.emit({"act": "restart"}); g.relogin_all()
     g.emit({"act": "disk", "data": True, "snap": "restart"})
     return g.plan()
+
+def prepare(plan, z):
+    from gen import place_faults
+    return place_faults(plan, z, plan["seed"])
 
 def _v(cls, msg, **kw):
     d = {"class": cls, "msg": msg}; d.update(kw); return d
@@ -366,6 +377,9 @@ def check(plan, r):
             for ref in sorted(set(before) | set(after)):
                 if ref not in after:
                     viols.append(_v("C09.object_lost", "after %s failed with %s%s, object %s is no longer found by session %s" % (f, K.rvname(ret.get("rv")), fdesc, ref, sref), manifestation="object_lost", target=("written_object" if ref == op.get("o") else "other_object"), **common))
+                elif ref not in before and getattr(w.objs.get(ref), "alive", False) and ref != op.get("out"):
+                    # the model says this object exists and is visible: an EARLIER failed call hid it (reported there); this call's re-index brought it back
+                    viols.append(_v("C09.object_reappeared", "after %s failed with %s%s, session %s finds object %s again, which an earlier failed call had wrongly hidden" % (f, K.rvname(ret.get("rv")), fdesc, sref, ref), manifestation="reappeared_after_earlier_loss", **common))
                 elif ref not in before:
                     viols.append(_v("C09.object_appeared", "after %s failed with %s%s, session %s finds a new object %s" % (f, K.rvname(ret.get("rv")), fdesc, sref, ref), manifestation="object_appeared", **common))
                 else:
@@ -386,7 +400,11 @@ def check(plan, r):
         s = w.sess(pid, op.get("s")) if "s" in op else None
         if f == "@restart": restarted = True
         if op.get("checked"):
-            if k in fault_ops and not ok: st("fault_fired_and_failed"); fault_failed.append(f)
+            if k in fault_ops and not ok:
+                st("fault_fired_and_failed"); fault_failed.append((f, fault_ops[k][0]["k"], c_role(fault_ops[k][0]["path"])))
+                # restart-time manifestations cannot be tied to one of several faulted calls by observation; they are attributed to the one that
+                # physically changes file contents (a failed write/ftruncate) if there is one, else to the earliest (documented in DESIGN 10)
+                fault_failed.sort(key=lambda x: 0 if x[1] in ("write", "ftruncate") else 1)
             if not ok and prev is not None and not restarted:
                 pending = (k, op, ret, prev)
         w.apply(pid, op, ret)
@@ -407,7 +425,7 @@ def check(plan, r):
                 if last_snap_before_restart is not None and last_snap_before_restart.disk is not None:
                     st("restart_compared")
                     for kind, where, what in diff_disk(last_snap_before_restart.disk, dv)[:2]:
-                        viols.append(_v("C09.disk_changed_by_restart", "the token directory changed across C_Finalize/C_Initialize: %s %s: %s" % (kind, where, what), call="restart", op=k, manifestation=kind, after_faulted_failure=bool(fault_failed), defect="fault" if fault_failed else "none"))
+                        viols.append(_v("C09.disk_changed_by_restart", "the token directory changed across C_Finalize/C_Initialize: %s %s: %s" % (kind, where, what), call="restart", op=k, manifestation=kind, after_faulted_failure=bool(fault_failed), defect="fault" if fault_failed else "none", fault_fs=(fault_failed[0][1] if fault_failed else None), fault_role=(fault_failed[0][2] if fault_failed else None)))
                     before_tok = {}
                     for sref, view in last_snap_before_restart.views.items():
                         for ref, at in view.items():
@@ -415,11 +433,11 @@ def check(plan, r):
                             if o is not None and o.token: before_tok.setdefault(o.tok, {})[ref] = at
                     for tok, (view, unid, kk) in post_restart_views.items():
                         if unid:
-                            viols.append(_v("C09.partial_object_visible", "after the restart token %s returns %d object(s) without a readable label (left-overs of failed calls)" % (tok, unid), call="restart", op=kk, manifestation="partial_object_visible_after_restart", after_faulted_failure=bool(fault_failed), defect="fault" if fault_failed else "none"))
+                            viols.append(_v("C09.partial_object_visible", "after the restart token %s returns %d object(s) without a readable label (left-overs of failed calls)" % (tok, unid), call="restart", op=kk, manifestation="partial_object_visible_after_restart", after_faulted_failure=bool(fault_failed), defect="fault" if fault_failed else "none", fault_fs=(fault_failed[0][1] if fault_failed else None), fault_role=(fault_failed[0][2] if fault_failed else None)))
                         for ref in view:
                             o = w.objs.get(ref)
                             if o is not None and not o.alive:
-                                viols.append(_v("C09.object_appeared", "after the restart object %s exists although the call that would have created it failed (or it was destroyed)" % ref, call="restart", op=kk, manifestation="object_appeared_after_restart", after_faulted_failure=bool(fault_failed), defect="fault" if fault_failed else "none"))
+                                viols.append(_v("C09.object_appeared", "after the restart object %s exists although the call that would have created it failed (or it was destroyed)" % ref, call="restart", op=kk, manifestation="object_appeared_after_restart", after_faulted_failure=bool(fault_failed), defect="fault" if fault_failed else "none", fault_fs=(fault_failed[0][1] if fault_failed else None), fault_role=(fault_failed[0][2] if fault_failed else None)))
             else:
                 cur.disk = dv
                 finish_snapshot(k)
